@@ -142,6 +142,64 @@ def value_checks(seed):
             after = after if isinstance(after, list) else [after]
             if not all(torch.equal(a, b) for a, b in zip(before, after)):
                 bad.append(dict(case=name, violated='copy=True solution changed after later training / mutation of the solver'))
+        # (i) numpy coordinates of any memory layout: the value at entry [i, j] of the result belongs to the point at entry [i, j]
+        import numpy as np
+        for name, solver, eqs, coords in cases[:1] + cases[2:3]:
+            base = np.random.RandomState(seed).rand(3, 4)
+            layouts = dict(transposed=base.T, fortran=np.asfortranarray(base), strided=np.random.RandomState(seed + 1).rand(6, 8)[::2, ::2])
+            for lname, arr in layouts.items():
+                args = [arr] + [np.ascontiguousarray(arr) * 0.5 + 0.1 * k for k in range(1, len(coords))]
+                got = solver.get_solution()(*args, to_numpy=True)
+                ref = solver.get_solution()(*[np.ascontiguousarray(a) for a in args], to_numpy=True)
+                got, ref = (got if isinstance(got, list) else [got]), (ref if isinstance(ref, list) else [ref])
+                if any(g.shape != arr.shape or not np.array_equal(g, r) for g, r in zip(got, ref)):
+                    bad.append(dict(case=name, violated='numpy coordinates that are not C-contiguous: values are not at the grid points they belong to',
+                                    layout=lname, shape=list(arr.shape)))
+                try:
+                    r1 = solver.get_residuals(*args, to_numpy=True)
+                    r2 = solver.get_residuals(*[np.ascontiguousarray(a) for a in args], to_numpy=True)
+                    r1, r2 = (r1 if isinstance(r1, list) else [r1]), (r2 if isinstance(r2, list) else [r2])
+                    if any(not np.array_equal(a, b) for a, b in zip(r1, r2)):
+                        bad.append(dict(case=name, violated='get_residuals on non-C-contiguous numpy coordinates', layout=lname))
+                except Exception as e:
+                    bad.append(dict(case=name, violated='get_residuals raised on numpy coordinates', layout=lname, error=f'{type(e).__name__}: {e}'))
+        # (ii) copy=True is a snapshot of the conditions too: tensor-valued parameters updated IN PLACE, edited sub-conditions
+        from neurodiffeq.conditions import EnsembleCondition
+        u0 = torch.tensor([[0.25]])
+        ivp_t = IVP(0., u0)
+        ens = EnsembleCondition(IVP(0., 1.), IVP(0., 2.))
+        sv = S.Solver1D(lambda u, w, t: [diff(u, t) + u, diff(w[:, :1], t) - u + w[:, 1:2] * 0], [ivp_t, ens], t_min=0., t_max=1.,
+                        nets=[FCNN(1, 1, hidden_units=(3,)), FCNN(1, 2, hidden_units=(3,))],
+                        train_generator=Generator1D(5, 0., 1.), valid_generator=Generator1D(5, 0., 1.))
+        sv.fit(1, tqdm_file=None)
+        tt = torch.rand(4)
+        snap = sv.get_solution(copy=True, best=False)
+        before = [b.clone() for b in snap(tt, no_reshape=True)]
+        u0 += 3.0                                   # in-place update of a tensor parameter of the solver's condition
+        ens.conditions[1].u_0 = 7.0                 # edit of a sub-condition of the solver's ensemble
+        after = snap(tt, no_reshape=True)
+        if not all(torch.equal(a, b) for a, b in zip(before, after)):
+            bad.append(dict(case='Solver1D', violated='copy=True solution changed after an in-place update of a condition parameter / an edited sub-condition of the solver'))
+        # (iii) get_residuals returns ALL the user's equations, whatever the number of unknowns
+        eq2 = lambda u, t: [diff(u, t) + u, diff(u, t, order=2) - u]
+        so = S.Solver1D(eq2, [IVP(0., 1.)], t_min=0., t_max=1., nets=[FCNN(1, 1, hidden_units=(3,))],
+                        train_generator=Generator1D(5, 0., 1.), valid_generator=Generator1D(5, 0., 1.))
+        so.fit(1, tqdm_file=None)
+        eq1 = lambda u, v, t: [diff(u, t) + v]
+        su = S.Solver1D(eq1, [IVP(0., 1.), IVP(0., 0.)], t_min=0., t_max=1., nets=[FCNN(1, 1, hidden_units=(3,)) for _ in range(2)],
+                        train_generator=Generator1D(5, 0., 1.), valid_generator=Generator1D(5, 0., 1.))
+        su.fit(1, tqdm_file=None)
+        for nm, sol_, eqs_, n_eq in (('1 unknown / 2 equations', so, eq2, 2), ('2 unknowns / 1 equation', su, eq1, 1)):
+            res = sol_.get_residuals(tt, best=False)
+            lst = res if isinstance(res, (list, tuple)) else [res]
+            cs = [tt.reshape(-1, 1).requires_grad_()]
+            fs = sol_.get_solution(copy=False, best=False)(*cs)
+            want = eqs_(*(fs if isinstance(fs, list) else [fs]), *cs)
+            if len(lst) != n_eq or any(not torch.equal(a.reshape(-1), b.reshape(-1)) for a, b in zip(lst, want)) \
+                    or (n_eq == 1) != (not isinstance(res, (list, tuple))):
+                bad.append(dict(case=nm, violated='get_residuals does not return exactly the user\'s equations applied to the solution '
+                                '(a single tensor for one equation, a list otherwise)', returned=len(lst), equations=n_eq,
+                                container=type(res).__name__))
         # spherical harmonics solution: sum_k enforce(net, r)_k * Y_k
         hf = RealSphericalHarmonics(max_degree=2)
         net = FCNN(1, 9, hidden_units=(5,))
